@@ -8,7 +8,7 @@
 From Coq Require Import ZArith List Bool Lia ZifyBool.
 From RecordUpdate Require Import RecordSet.
 From Common Require Import Res.
-From Core Require Import World Hoare Model Step Reach ListLemmas Proofs_C03b Proofs_C02b Proofs_C10b Proofs_C02c Proofs_C03c Proofs_C10c Proofs_C05b.
+From Core Require Import World Hoare Model Step Reach ListLemmas Proofs_C03b Proofs_C02b Proofs_C10b Proofs_C02c Proofs_C03c Proofs_C03d Proofs_C10c Proofs_C05b.
 Import ListNotations RecordSetNotations.
 Open Scope Z_scope.
 
@@ -684,3 +684,36 @@ Proof.
 Qed.
 
 End RE.
+
+(* ---- consume: a refused entry that is dropped from the tracklist is forgotten as current entry *)
+Section CD.
+Variable shuf : Z -> list tlt -> list tlt.
+
+Lemma mark_unplayable_consume_run u x w :
+  consume w = true -> random w = false -> current w = Some u ->
+  NoDup (map tlid (World.tl w)) -> In x (World.tl w) -> tlid x <> tlid u ->
+  mark_unplayable shuf (Some u) w = (Ok tt, Proofs_C03d.fx_consumed u w).
+Proof.
+  intros Hco Hr Hc Hnd Hin Hne.
+  pose proof (Proofs_C03d.mark_played_consume_run shuf u x w Hco Hr Hc Hnd Hin Hne) as M.
+  unfold mark_played in M. unfold bind at 1, get at 1 in M. cbv beta iota in M.
+  unfold mark_unplayable. unfold bind at 1. unfold get at 1. cbv beta iota.
+  rewrite (bind_ok _ _ w tt _ M).
+  unfold bind, get, ret. cbn. rewrite Hr. reflexivity.
+Qed.
+
+Theorem consume_dropped_not_current u x w :
+  consume w = true -> random w = false -> current w = Some u ->
+  NoDup (map tlid (World.tl w)) -> In x (World.tl w) -> tlid x <> tlid u ->
+  let w' := snd (mark_unplayable shuf (Some u) w) in
+  current w' = None /\ mem_tlt u (World.tl w') = false /\ In x (World.tl w')
+  /\ version w' = version w + 1 /\ events w' = EvTracklistChanged :: events w.
+Proof.
+  intros Hco Hr Hc Hnd Hin Hne. cbv zeta.
+  rewrite (mark_unplayable_consume_run u x w Hco Hr Hc Hnd Hin Hne). cbn [snd].
+  unfold Proofs_C03d.fx_consumed. cbn. repeat split.
+  - apply Proofs_C03d.without_drops. exact Hnd.
+  - apply Proofs_C03d.without_keeps; assumption.
+Qed.
+
+End CD.
